@@ -58,7 +58,13 @@ fn c06_px(rng: &mut Rng, i: u64) -> [f32; 3] {
                 [rng.pick(&v), rng.pick(&v), rng.pick(&v)]
             }
         },
-        3 => [rng.unit() as f32, rng.unit() as f32, rng.unit() as f32],
+        3 => {
+            if rng.below(3) == 0 {
+                crate::gen::related_px(rng, 2.0)
+            } else {
+                [rng.unit() as f32, rng.unit() as f32, rng.unit() as f32]
+            }
+        }
         _ => [rng.range(-0.5, 2.0) as f32, rng.range(-0.5, 2.0) as f32, rng.range(-0.5, 2.0) as f32],
     }
 }
